@@ -18,6 +18,12 @@ package main
 //     A<k>:<sid>:<answer>@P<j>+<dt>              proxy answer dt ms after poll j returned (only if it got an offer)
 //     L<k>:<dur>@<t>                             hold ctx.snowflakeLock for dur ms from t
 //     I<k>:<fp>=<url>;<fp>=<url>@<t>             InstallBridgeListProfile at t (replaces the whole list; "-" = empty list)
+//     J<k>:<hex of file text>@<t>                InstallBridgeListProfile of a bridge-list FILE given as text (the real line
+//                                                loader of bridge-list.go); result "installed" or "err:..."
+//     H<k>:<workers>:<dur>@<t>                   denial hammer: <workers> goroutines issue client polls of NAT "unrestricted"
+//                                                (offer {hammer}; the scenario must hold no restricted proxy, so each is
+//                                                denied) back to back for dur ms; result denied:<count>, other:<response>
+//                                                when one was answered anything else, "blocked" when a call never returned
 //     W<k>:<ms>@0                                watchdog: total observation time of the scenario
 //     D<k>:<n>@0                                 delivery barrier: every client handler of the scenario gets a ResponseWriter
 //                                                whose first Write blocks (a slow connection) until n client handlers
@@ -32,6 +38,7 @@ import (
 	"bufio"
 	"bytes"
 	"container/heap"
+	"encoding/hex"
 	"encoding/json"
 	"fmt"
 	"io"
@@ -456,6 +463,14 @@ func vbRunScenario(args []string) string {
 		cur := current(sid)
 		return cur != nil && cur != prev
 	}
+	// set by the poll's own watcher goroutine (below) once it has seen the registration: the gate must not take the
+	// matching lock itself (an L event may hold it, and the gated event may be meant to queue behind it)
+	regSeen := map[string]bool{}
+	sawRegistered := func(key string) bool {
+		stMu.Lock()
+		defer stMu.Unlock()
+		return regSeen[key]
+	}
 	gate := func(e vbEvent) {
 		if !sequenced || e.isRel {
 			return
@@ -471,7 +486,7 @@ func vbRunScenario(args []string) string {
 				ok := false
 				switch p.kind {
 				case 'P':
-					ok = st.returned || (!st.arrived.IsZero() && registered(key, p.f[0]))
+					ok = st.returned || (!st.arrived.IsZero() && sawRegistered(key))
 					if ok && p.at+10000+100 <= e.at && !st.returned {
 						// its 10 s are over: it must have expired or been matched (then it has returned too)
 						ok = false
@@ -539,6 +554,9 @@ func vbRunScenario(args []string) string {
 					for {
 						if registered(key, e.f[0]) {
 							stamp("t"+key, 1, time.Now(), start)
+							stMu.Lock()
+							regSeen[key] = true
+							stMu.Unlock()
 							return
 						}
 						select {
@@ -577,6 +595,45 @@ func vbRunScenario(args []string) string {
 					freshFp = fp
 					freshMu.Unlock()
 					set(key, "installed")
+				}
+			case 'J':
+				text, err := hex.DecodeString(e.f[0])
+				if err == nil {
+					err = ctx.InstallBridgeListProfile(bytes.NewReader(text), "", "")
+				}
+				if err != nil {
+					set(key, "err:"+strings.ReplaceAll(err.Error(), " ", "_"))
+				} else {
+					set(key, "installed")
+				}
+			case 'H':
+				workers, _ := strconv.Atoi(e.f[0])
+				d, _ := strconv.Atoi(e.f[1])
+				until := time.Now().Add(time.Duration(d) * time.Millisecond)
+				var hw sync.WaitGroup
+				var hmu sync.Mutex
+				denied, other := 0, ""
+				for w := 0; w < workers; w++ {
+					hw.Add(1)
+					go func() {
+						defer hw.Done()
+						for time.Now().Before(until) {
+							r := vbDoClient(i, "unrestricted", "-", "{hammer}", "v")
+							hmu.Lock()
+							if r == "noproxies" {
+								denied++
+							} else if other == "" {
+								other = r
+							}
+							hmu.Unlock()
+						}
+					}()
+				}
+				hw.Wait()
+				if other != "" {
+					set(key, "other:"+other)
+				} else {
+					set(key, "denied:"+strconv.Itoa(denied))
 				}
 			case 'L':
 				d, _ := strconv.Atoi(e.f[0])
@@ -720,6 +777,108 @@ func vbRunHeap(ops string) string {
 	return strings.Join(segs, " ")
 }
 
+// "broker bload <hex of file text>": the text through LoadBridgeInfo of a fresh holder that already holds one bridge
+// (so that a failed load is seen to leave the old map alone). Output: "ok <FP>=<url>;..." sorted by fingerprint
+// ("ok -" for an empty map) or "err" (then the old map must still be there, else "err-map-changed").
+func vbRunBload(hx string) string {
+	text, err := hex.DecodeString(hx)
+	if hx == "-" {
+		text, err = nil, nil
+	}
+	if err != nil {
+		return "!badcase"
+	}
+	h := NewBridgeListHolder()
+	const oldFp, oldURL = "0123456789ABCDEF0123456789ABCDEF01234567", "wss://old.example/"
+	if err := h.LoadBridgeInfo(strings.NewReader(fmt.Sprintf("{\"displayName\":\"old\", \"webSocketAddress\":%q, \"fingerprint\":%q}\n", oldURL, oldFp))); err != nil {
+		return "!preload"
+	}
+	lerr := h.LoadBridgeInfo(bytes.NewReader(text))
+	m := h.(*bridgeListHolder)
+	m.accessBridgeInfo.RLock()
+	defer m.accessBridgeInfo.RUnlock()
+	var items []string
+	for fp, info := range m.bridgeInfo {
+		items = append(items, strings.ToUpper(hex.EncodeToString(fp.ToBytes()))+"="+info.WebSocketAddress)
+	}
+	sort.Strings(items)
+	if lerr != nil {
+		if len(items) != 1 || items[0] != oldFp+"="+oldURL {
+			return "err-map-changed"
+		}
+		return "err"
+	}
+	if len(items) == 0 {
+		return "ok -"
+	}
+	return "ok " + strings.Join(items, ";")
+}
+
+// "broker burst <n> <limit ms>": n idle proxy polls at the same time through the /proxy handler against one broker; no
+// client ever comes, so every poll must be answered "no match" when its ProxyTimeout (10 s) is over.
+// Output: n= done= nomatch= other= late=<polls not answered within the limit> maxms=<latest answer> avail= heapU= heapR= gauge=
+func vbRunBurst(args []string) string {
+	if len(args) != 2 {
+		return "!badcase"
+	}
+	n, _ := strconv.Atoi(args[0])
+	limit, _ := strconv.Atoi(args[1])
+	ctx := NewBrokerContext(log.New(io.Discard, "", 0))
+	go ctx.Broker()
+	i := &IPC{ctx}
+	nats := []string{"unrestricted", "restricted", "unknown"}
+	var mu sync.Mutex
+	done, nomatch, other := 0, 0, 0
+	var maxms int64
+	start := time.Now()
+	var wg sync.WaitGroup
+	for j := 0; j < n; j++ {
+		j := j
+		wg.Add(1)
+		go func() {
+			defer wg.Done()
+			defer func() { recover() }()
+			r, _ := vbDoPoll(i, fmt.Sprintf("burst%d", j), nats[j%3], "standalone", j%5, "")
+			ms := time.Since(start).Milliseconds()
+			mu.Lock()
+			done++
+			if r == "nomatch" {
+				nomatch++
+			} else {
+				other++
+			}
+			if ms > maxms {
+				maxms = ms
+			}
+			mu.Unlock()
+		}()
+	}
+	fin := make(chan struct{})
+	go func() { wg.Wait(); close(fin) }()
+	select {
+	case <-fin:
+	case <-time.After(time.Until(start.Add(time.Duration(limit) * time.Millisecond))):
+	}
+	mu.Lock()
+	out := fmt.Sprintf("n=%d done=%d nomatch=%d other=%d late=%d maxms=%d", n, done, nomatch, other, n-done, maxms)
+	mu.Unlock()
+	avail, hu, hr := -1, -1, -1
+	lk := make(chan struct{})
+	go func() {
+		ctx.snowflakeLock.Lock()
+		avail = len(ctx.idToSnowflake)
+		hu = ctx.snowflakes.Len()
+		hr = ctx.restrictedSnowflakes.Len()
+		ctx.snowflakeLock.Unlock()
+		close(lk)
+	}()
+	select {
+	case <-lk:
+	case <-time.After(2 * time.Second):
+	}
+	return out + fmt.Sprintf(" avail=%d heapU=%d heapR=%d gauge=%d", avail, hu, hr, vbGaugeSum(ctx))
+}
+
 func TestVerifBrokerDriver(t *testing.T) {
 	if os.Getenv("VERIF_DRIVER") != "broker" {
 		t.Skip("driver mode off")
@@ -742,8 +901,16 @@ func TestVerifBrokerDriver(t *testing.T) {
 			defer wg.Done()
 			defer func() { <-sem }()
 			args := strings.Split(line, " ")
-			if len(args) == 3 && args[1] == "heap" {
+			if len(args) == 3 && (args[1] == "heap" || args[1] == "heapz") {
 				res[idx] = vbRunHeap(args[2])
+				return
+			}
+			if len(args) == 3 && args[1] == "bload" {
+				res[idx] = vbRunBload(args[2])
+				return
+			}
+			if len(args) == 4 && args[1] == "burst" {
+				res[idx] = vbRunBurst(args[2:])
 				return
 			}
 			res[idx] = vbRunScenario(args[1:])
